@@ -155,11 +155,12 @@ func (c *SumCopyCommand) sumCopyItem(item string, tow io.Writer) error {
 		return nil
 	}
 
-	if err := updateFileDataWithPointsList(destDB, srcPlDif, now); err != nil {
+	writtenPl, err := updateFileDataWithTimeSeriesList(destDB, srcTsList, c.ArchiveID, c.From, until, now, true)
+	if err != nil {
 		return err
 	}
 
-	if err := printFileData(tow, srcHeader, srcPlDif, true); err != nil {
+	if err := printFileData(tow, srcHeader, writtenPl, true); err != nil {
 		return err
 	}
 
